@@ -87,21 +87,12 @@ def r19_1(ctx, S, prog, crate):
     if ctx.check(ok, "R19.1", [b.path, "multiple-is-quotient"], "the compared quantity is not a quotient", b.where(x)):
         num = b.prov.op_src(dm[1]["a"])
         den = b.prov.op_src(dm[1]["b"])
-        ctx.check(any(z.kind == "call" and z.a == "std::iter::Iterator::max_by_key" for z in num) and nophi(num) and any(z.kind == "call" and z.a == "stats::sample::RawSample::duration" for z in num)
-                  and not any(z.kind == "call" and z.a == "time::timer::Timer::precision" for z in num), "R19.1", [b.path, "numerator-is-slowest-sample"],
-                  "the numerator is not the slowest thread's sample duration", b.where(x))
-        ctx.check(any(z.kind == "call" and z.a == "time::timer::Timer::precision" for z in den) and not any(z.kind == "call" and z.a == "std::iter::Iterator::max_by_key" for z in den),
+        from .sampling import slowest_duration
+        ok_sl, found_sl = slowest_duration(prog, b, dm[1]["a"])
+        ctx.check(ok_sl and not any(z.kind == "call" and z.a == "time::timer::Timer::precision" for z in num), "R19.1", [b.path, "numerator-is-slowest-sample"],
+                  "the numerator is not the slowest thread's sample duration (%s)" % found_sl, b.where(x))
+        ctx.check(any(z.kind == "call" and z.a == "time::timer::Timer::precision" for z in den) and not any(z.kind == "call" and z.a.rsplit("::", 1)[-1] in ("max_by_key", "max") for z in den),
                   "R19.1", [b.path, "denominator-is-timer-precision"], "the denominator is not the timer precision", b.where(x))
-        # max_by_key's key closure is duration
-        num_calls = {z.b for z in num if z.kind == "call"}
-        for c in b.live_calls():
-            # the max_by_key that selects the slowest sample (the one the numerator derives from)
-            if c.callee == "std::iter::Iterator::max_by_key" and c.bb in S.loop["body"] and c.bb in num_calls:
-                for d in b.prov.defs.get(c.args[1]["p"]["l"], []) if c.args[1]["k"] in ("copy", "move") else []:
-                    if d[0] == "S" and d[3]["rv"]["k"] == "agg" and d[3]["rv"]["ak"] == "closure":
-                        cb = prog.bodies.get((b.crate, norm(d[3]["rv"]["def"]), -1))
-                        names = [q.callee for q in cb.live_calls()]
-                        ctx.check(names == ["stats::sample::RawSample::duration"], "R19.1", [b.path, "slowest-by-duration"], "max_by_key key calls %s" % names, cb.where(0))
     gt_t, le_t = bs[1], bs[2]
     le_blocks = tables.exclusive_blocks(b, le_t, [gt_t], stop=[S.loop["header"]])
     gt_blocks = tables.exclusive_blocks(b, gt_t, [le_t], stop=[S.loop["header"]])
